@@ -119,7 +119,23 @@ Definition has_children (s : fs) (p : rpath) : bool :=
 
 Inductive sysres := SOk (s : fs) | SErr (e : errno).
 
+(* rename(2) refuses paths whose last component is "." or ".." (EBUSY/EINVAL); pathlib has already
+   dropped ".", so: an empty component list or a trailing ".." *)
+Definition bad_last (p : upath) : bool :=
+  match up_comps p with
+  | [] => true
+  | _ => name_eqb (last (up_comps p) []) dotdot
+  end.
+
 Definition os_rename (s : fs) (cwd : rpath) (src dst : upath) : sysres :=
+  if bad_last src || bad_last dst then
+    match resolve s cwd src false, resolve s cwd dst false with
+    | WErr e, _ => SErr e
+    | WMissing _ _, _ => SErr ENOENT
+    | _, WErr e => SErr e
+    | _, _ => SErr EINVAL
+    end
+  else
   match resolve s cwd src false with
   | WFound sp sn =>
     match sp with
@@ -180,28 +196,52 @@ Definition shutil_move_fs (s : fs) (cwd : rpath) (src dst : upath) : sysres :=
   else os_rename s cwd src dst.
 
 (* ---------- os.path.realpath(strict=False), as Path.resolve() uses it --------- *)
-(* [path] is the real prefix built so far; a component that does not exist (or is not
-   a link) is appended lexically; ".." pops lexically. *)
-Fixpoint realpath_from (fuel : nat) (s : fs) (path : rpath) (comps : list name) : option rpath :=
+(* posixpath._joinrealpath: [path] is the real prefix built so far; a component that does not exist
+   (or is not a link) is appended lexically; ".." pops lexically; a link is resolved by a recursive
+   call on its target with the link marked "in progress"; meeting an in-progress link again is a
+   loop: the rest is then appended unresolved (and only normalised lexically by abspath) and the
+   failure is propagated outwards.  The boolean is CPython's [ok]. *)
+Fixpoint lexical_join (acc : rpath) (comps : list name) : rpath :=
+  match comps with
+  | [] => acc
+  | c :: rest => if name_eqb c dotdot then lexical_join (removelast acc) rest else lexical_join (acc ++ [c]) rest
+  end.
+
+Fixpoint joinreal (fuel : nat) (s : fs) (path : rpath) (rest : list name) (inprog : list rpath) : rpath * bool :=
   match fuel with
-  | O => None                                   (* symlink loop: resolve() raises *)
+  | O => (lexical_join path rest, false)
   | S f =>
-    match comps with
-    | [] => Some path
-    | c :: rest =>
-      if name_eqb c dotdot then realpath_from f s (removelast path) rest
+    match rest with
+    | [] => (path, true)
+    | c :: rest' =>
+      if name_eqb c dotdot then joinreal f s (removelast path) rest' inprog
       else
-        let p := path ++ [c] in
-        match lookup s p with
+        let newpath := path ++ [c] in
+        match lookup s newpath with
         | Some (NLink _ tgt) =>
-          realpath_from f s (if up_abs tgt then [] else path) (up_comps tgt ++ rest)
-        | _ => realpath_from f s p rest
+          if existsb (rpath_eqb newpath) inprog then (lexical_join newpath rest', false)
+          else
+            match joinreal f s (if up_abs tgt then [] else path) (up_comps tgt) (newpath :: inprog) with
+            | (p1, true) => joinreal f s p1 rest' inprog
+            | (p1, false) => (lexical_join p1 rest', false)
+            end
+        | _ => joinreal f s newpath rest' inprog
         end
     end
   end.
 
+Definition realpath_fuel : nat := 400.
+
+Definition realpath_raw (s : fs) (cwd : rpath) (p : upath) : rpath :=
+  fst (joinreal realpath_fuel s (if up_abs p then [] else cwd) (up_comps p) []).
+
+(* Path.resolve(): realpath, then stat() of the result to turn a symlink loop into RuntimeError (None) *)
 Definition realpath (s : fs) (cwd : rpath) (p : upath) : option rpath :=
-  realpath_from walk_fuel s (if up_abs p then [] else cwd) (up_comps p).
+  let a := realpath_raw s cwd p in
+  match resolve s [] {| up_abs := true; up_comps := a |} true with
+  | WErr ELOOP => None
+  | _ => Some a
+  end.
 
 (* ---------- canonical comparison of filesystems -------------------------------- *)
 Definition upath_eqb (a b : upath) : bool :=
